@@ -74,4 +74,10 @@ theorem nb_smul (g : C15.Grid) (p : List V3) (ci i : Nat) (k : Rat) :
     rw [show cellPts (p.map (V3.smul k)) (g.cells.getD cj []) = (cellPts p (g.cells.getD cj [])).map (V3.smul k) from
       map_pt_map_smul k p _, avg_map_smul]
 
+theorem finalPts_length (p : List V3) (ops : List HOp) : (finalPts p ops).length = p.length := by
+  unfold finalPts
+  induction ops generalizing p with
+  | nil => rfl
+  | cons o os ih => cases o <;> simp [List.foldl_cons, stepPts, ih]
+
 end CBV.C14
